@@ -109,7 +109,9 @@ def gen_unit(rng):
         if rng.random() < 0.5:
             o["missing"] = rng.choice(["N/A", "-", "(none)"])
         if rng.random() < 0.5:
-            o["escapes"] = rng.choice([{"'": "\\'"}, {"a": "%61", "%": "%25"}, {" ": "_"}])
+            o["escapes"] = rng.choice([{"'": "\\'"}, {"a": "%61", "%": "%25"}, {" ": "_"},
+                                       # an empty sequence deletes the character (characters that the JSON text of a nested value never holds raw)
+                                       {"\r": ""}, {"\r": "", "\n": "\\n"}, {"\t": "", "\r": ""}, {"\r": "<CR>", "\t": ""}])
         o["headers"] = rng.random() < 0.5
         u["opts"] = o
     return u
